@@ -295,6 +295,11 @@ func genProgram(r *hk.Rand) *program {
 		default:
 			oc = outcome{Kind: "ctxcancel"}
 		}
+		if strings.HasPrefix(oc.Kind, "status") && r.Chance(12) {
+			for i, n := 0, r.Range(1, 2); i < n; i++ {
+				oc.SetCookie = append(oc.SetCookie, [2]string{hk.Pick(r, []string{"srv", "sid", "a", "tok"}), hk.Pick(r, tokVals)})
+			}
+		}
 		p.Script = append(p.Script, oc)
 	}
 	// terminal outcome: the context is cancelled, which ends every loop
@@ -529,8 +534,13 @@ func coqCase(p *program, o *observation) (string, bool) {
 		hkeys = append(hkeys, k)
 	}
 	sort.Strings(hkeys)
+	jars, _ := p.jarsBefore(o.Jar0, len(o.Wires))
 	var wires []string
-	for _, w := range o.Wires {
+	for k, w := range o.Wires {
+		// the jar's cookies (after the caller's) are the subject of the CookieCase
+		if n := len(w.Cookies) - len(jars[k]); n >= 0 && fmt.Sprint(w.Cookies[n:]) == fmt.Sprint(jars[k]) {
+			w.Cookies = w.Cookies[:n]
+		}
 		var hs []kvs
 		for _, k := range hkeys {
 			if vs := w.Header[k]; len(vs) > 0 {
@@ -604,7 +614,18 @@ func runProgram(r *hk.Run, p *program) {
 		coq, _ := coqCase(p, &o)
 		r.Add(hk.Case{Coq: coq, Desc: map[string]interface{}{"kind": "run", "program": p, "attempts": len(o.Wires), "final": []int{o.Status, o.Err}}},
 			string(key), len(o.Wires) >= 2 || o.UpFront)
+		addCookieCase(r, p, &o, string(key))
 	}
+}
+
+// addCookieCase: programs in which the jar matters get a CookieCase besides.
+func addCookieCase(r *hk.Run, p *program, o *observation, key string) {
+	if len(o.Wires) == 0 || o.Panicked != "" || (!p.setsCookies() && len(o.Jar0) == 0) {
+		return
+	}
+	r.Count("jar.programs")
+	r.Add(hk.Case{Coq: coqCookieCase(p, o), Desc: map[string]interface{}{"kind": "cookies", "program": p, "jar0": o.Jar0, "attempts": len(o.Wires)}},
+		"J|"+key, len(o.Wires) >= 2)
 }
 
 // backoffCases: the built-in interval function on (min, max, attempt) triples.
@@ -683,3 +704,20 @@ func backoffOne(r *hk.Run, mn, mx int64, a int) {
 }
 
 var _ = bytes.NewReader
+
+// coqCookieCase: the caller's cookies, the jar before the first attempt, what each attempt's
+// response sets, and the cookies every attempt carried.
+func coqCookieCase(p *program, o *observation) string {
+	sh := &p.Shape
+	caller := append(append([][2]string{}, sh.RCookies...), sh.CCookies...)
+	var resps, obs []string
+	for k, w := range o.Wires {
+		var set [][2]string
+		if k < len(p.Script) {
+			set = p.Script[k].sets()
+		}
+		resps = append(resps, coqCookies(set))
+		obs = append(obs, coqCookies(w.Cookies))
+	}
+	return fmt.Sprintf("CookieCase %s %s %s %s", coqCookies(caller), coqCookies(o.Jar0), hk.CoqList(resps), hk.CoqList(obs))
+}
